@@ -204,14 +204,31 @@ class Cache(object):
         return orig_seq
 
     def _dump_flow_and_yield(self, flow):
-        # fill cache and yield values
-        with open(self._filename, "wb") as f:
-            dump = lambda val: self._dump(val, f, self.protocol)
-            for val in flow:
-                # if there were an error in a next element,
-                # our value will be saved first (before yielding)
-                dump(val)
-                yield val
+        # fill cache and yield values.
+        # Values are written to a temporary file, which gets
+        # the name of the cache only after the flow was exhausted.
+        # Otherwise an interrupted flow would leave a truncated cache,
+        # which would be used instead of the complete flow next time.
+        tmp_filename = self._filename + ".part"
+        complete = False
+        try:
+            with open(tmp_filename, "wb") as f:
+                dump = lambda val: self._dump(val, f, self.protocol)
+                for val in flow:
+                    # if there were an error in a next element,
+                    # our value will be saved first (before yielding)
+                    dump(val)
+                    yield val
+            complete = True
+        finally:
+            # also if this generator was closed or garbage collected
+            if not complete:
+                try:
+                    os.remove(tmp_filename)
+                except OSError:
+                    pass
+        # os.replace appeared in Python 3.3
+        getattr(os, "replace", os.rename)(tmp_filename, self._filename)
 
 
     def _load_flow(self):
